@@ -11,7 +11,7 @@ BUILD = os.path.join(ROOT, '.build')
 SPEC = os.path.join(ROOT, 'spec')
 HARNESS = os.path.join(ROOT, 'harness')
 SHIM = os.path.join(ROOT, 'shim')
-EVID = os.path.join(ROOT, 'evidence')
+EVID = os.environ.get('VERIF_EVIDENCE_DIR') or os.path.join(ROOT, 'evidence')
 JAR = '/opt/veriftools/tla/tla2tools.jar:/opt/veriftools/tla/CommunityModules-deps.jar'
 NCPU = os.cpu_count() or 4
 GUARD = 'PARMCB_VERIF'
